@@ -74,21 +74,23 @@ def bond_limits(n):
     return [-1] + full
 
 
-def cutoff_specs(mode, n):
-    """Cutoff descriptors for a spectrum of n values (resolved against S at check time)."""
+def cutoff_specs(mode, n, eps=1e-7):
+    """Cutoff descriptors for a spectrum of n values (resolved against S at check time).  `eps` is the
+    relative margin of the just-below / just-above cutoffs: it must be well above the rounding of the
+    dtype in which the library compares (1e-7 for 64-bit data, 1e-3 for 32-bit data)."""
     out = [["abs", -1.0], ["abs", 0.0], ["abs", 1e-12], ["abs", 1e6], ["abs", 0.125], ["abs", 0.5]]
     ks = sorted({0, 1, n // 2, n - 1} & set(range(n)))
     if mode in (1, 2):
         for k in ks:
-            for f in (1 - 1e-7, 1.0, 1 + 1e-7):
+            for f in (1 - eps, 1.0, 1 + eps):
                 out.append(["sval", k, f])
         out.append(["sval", max(n - 1, 0), 0.5])
     else:
         for k in sorted({1, 2, (n + 1) // 2, n - 1} & set(range(1, n + 1))):
-            for f in (1 - 1e-7, 1.0, 1 + 1e-7):
+            for f in (1 - eps, 1.0, 1 + eps):
                 out.append(["cum", k, f])
         out.append(["cum", 1, 0.5])
-    for f in (1 - 1e-7, 1.0, 1 + 1e-7, 1.5):
+    for f in (1 - eps, 1.0, 1 + eps, 1.5):
         out.append(["total", f])
     return out
 
@@ -152,10 +154,11 @@ def check_case(d):
     prod_cache = {}
     combos = 0
     exact_spectrum = bool(n and np.all(S == np.round(S)) and np.max(S) < 2**20)
+    single = str(m["spec"].get("dtype", "float64")) in ("float32", "complex64")
 
     for max_bond in bond_limits(n):
         counts_by_cutoff = []
-        for cspec in cutoff_specs(mode, n):
+        for cspec in cutoff_specs(mode, n, 1e-3 if single else 1e-7):
             cutoff = resolve_cutoff(S, mode, cspec)
             ge_total = bool(mode >= 3 and cutoff > 0 and cutoff >= wtot * (1 - 1e-9))
             where = f"mode={mode} cutoff={cspec}->{cutoff!r} max_bond={max_bond}"
@@ -163,6 +166,8 @@ def check_case(d):
             # integer-valued spectra and dyadic cutoffs: every product / partial sum of the rule is
             # exact in float64, so is the boundary; otherwise allow for rounding at the boundary
             eps = 0.0 if (mode == 1 or (exact_spectrum and (mode in (3, 5) or cutoff * 1024 == int(cutoff * 1024)))) else 1e-11
+            if single and mode != 1:
+                eps = 1e-5  # the library compares in single precision: partial sums and products are rounded
             if cutoff > 0:
                 k_hi, tie_hi = kept_set(S, mode, cutoff * (1 - eps), max_bond)
                 k_lo, tie_lo = kept_set(S, mode, cutoff * (1 + eps), max_bond)
